@@ -172,7 +172,8 @@ Norm2(p) == Q3Add(Q3Mul(p[1], p[1]), Q3Mul(p[2], p[2]))
 PolyVert(p, k) == LET th == k * (12 \div p.sides) + p.rot  d == Dir30(th) IN <<Q3Add(Q3Int(p.c[1]), Q3Scale(p.r, d[2])), Q3Add(Q3Int(p.c[2]), Q3Scale(p.r, d[1]))>>
 PrimClass(p, cell) ==
   CASE p.k = "circle" -> OfSign(Q3Sign(Q3Sub(Q3Int(p.r2 * p.r2), Norm2(PC(cell, p.c)))))
-    [] p.k = "annulus" -> Worst({OfSign(R2(cell) - p.rin2 * p.rin2), OfSign(p.rout2 * p.rout2 - R2(cell))})
+    \* (an annulus without a hole, rin = 0, has no inner boundary: it is the disc)
+    [] p.k = "annulus" -> Worst({IF p.rin2 = 0 THEN "in" ELSE OfSign(R2(cell) - p.rin2 * p.rin2), OfSign(p.rout2 * p.rout2 - R2(cell))})
     [] p.k = "rectangle" -> LET x == X2(cell[2]) y == Y2(cell[1]) a == p.ang[1] b == p.ang[2] h == p.ang[3] IN
                             Worst({OfSign(h * p.w2 - AbsI(a * x - b * y)), OfSign(h * p.h2 - AbsI(b * x + a * y))})
     [] p.k = "ellipse" -> LET x == X2(cell[2]) y == Y2(cell[1]) a == p.ang[1] b == p.ang[2] h == p.ang[3] IN
